@@ -609,6 +609,13 @@ private:
       // Turn mip into an LP problem (saving i_variables in i_vars).
       using std::swap;
       swap(i_vars, lp.i_variables);
+      // The cached point of a solved MIP problem is the integral point
+      // found by branch-and-bound, whereas the incremental processing of
+      // pending constraints requires the cached point of an LP problem
+      // to be the vertex encoded by its tableau: recompute it.
+      if (lp.status == PARTIALLY_SATISFIABLE && lp.initialized) {
+        lp.compute_generator();
+      }
     }
 
     ~RAII_Temporary_Real_Relaxation() {
